@@ -189,7 +189,7 @@ def eval_invariants(doc, checks, skip_jumped=False):
 # ----------------------------------------------------------------------------- C02 .. C05, C09
 def gen_C02(rng, tier):
     d = base_doc(rng, rng.choice(["single", "extend", "widen", "history", "history"]), latlon_p=0.12,
-                 world_kw={"linked_p": 0.15}, trace_kw={})
+                 world_kw={"linked_p": 0.15, "zero_len_p": 0.1}, trace_kw={})
     return with_debug_log(rng, d)
 
 
@@ -225,7 +225,7 @@ def gen_C05(rng, tier):
                      trace_kw={"outlier_p": 0.7, "nobs": rng.choice([3, 4, 5, 6, 7, 8])})
         d["cfg"].setdefault("max_dist", 2.5 * d["world"].get("unit", 1.0))
         return with_debug_log(rng, d)
-    return with_debug_log(rng, base_doc(rng, prof, latlon_p=0.35, world_kw={"linked_p": 0.05}))
+    return with_debug_log(rng, base_doc(rng, prof, latlon_p=0.35, world_kw={"linked_p": 0.05, "zero_len_p": 0.12}))
 
 
 def eval_C05(doc):
@@ -617,9 +617,15 @@ def eval_C10(doc):
 def gen_C10H(rng, tier):
     """Scenario for the cross-process (hash seed) half: any history, no environment faults."""
     labels = rng.choice(["str", "str", "int", "bigint"])
-    d = base_doc(rng, rng.choice(["single", "single", "extend", "widen", "history"]), latlon_p=0.05,
-                 world_kw={"linked_p": 0.1, "labels": labels},
-                 fault_kinds=("dup", "clock"), sqlite_p=0.08 if labels != "str" else 0.0, pickle_p=0.03)
+    prof = rng.choice(["single", "single", "extend", "widen", "history", "anyops"])
+    kw = {}
+    if prof == "anyops":
+        # the jump operation (continue_with_distance) needs an early stop: outlier trace with a cut-off
+        kw = {"trace_kw": {"outlier_p": 0.7, "nobs": rng.choice([3, 4, 5, 6, 7])}, "cfg_kw": {"only_edges": True}}
+    d = base_doc(rng, prof, latlon_p=0.05, world_kw={"linked_p": 0.1, "labels": labels},
+                 fault_kinds=("dup", "clock"), sqlite_p=0.08 if labels != "str" else 0.0, pickle_p=0.03, **kw)
+    if prof == "anyops":
+        d["cfg"].setdefault("max_dist", 2.5 * d["world"].get("unit", 1.0))
     return d
 
 
